@@ -34,7 +34,7 @@ def mul_carries(x, y):
 
 
 def cases(tier, seed):
-    n = 320 if tier == 'quick' else 64000
+    n = 1500 if tier == 'quick' else 64000
     return [('mix', 120)] * n
 
 
